@@ -18,7 +18,11 @@ META = {
     "normal end (C14_full): every job of every node not downstream of a failure was dispatched and has a result on disk, "
     "nodes downstream of a failure never got a job, the submission fails iff some job failed and its error then lists exactly "
     "the failed jobs.  Full after the D10 repair (update_status guards job.done in the running loop); C14_regression_D10 "
-    "replays the old witness in the model.  Dependence is at node granularity as in the scheduler.  Tied to "
+    "replays the old witness in the model.  PARTIAL with respect to 'whatever the timing': the model interleaves at poll "
+    "granularity; a job that fails while get_runnable_tasks is scanning makes a successor pass the `p.errored` test on stale "
+    "tables and be started behind the failure, which aborts the workflow (known finding D34, reproduced with the load_result "
+    "gate; C14_stale_tables_witness / C14_fresh_tables_regression show the mechanism in the model).  Dependence is at node "
+    "granularity as in the scheduler.  Tied to "
     "pydra/engine/submitter.py and WorkflowOutputs._from_job by running workflows of 2-6 nodes with every/random fail sets "
     "under the controlled worker with schedules that force 'seen running, then fails', comparing per iteration tasks / "
     "dispatches / pending futures / NodeExecution tables, the executed bodies, the cached results and the jobs named by the error.",
@@ -26,13 +30,16 @@ META = {
     "node upstream has a failing job (the live branch of NodeExecution.get_runnable_tasks waits for whole predecessor nodes, so a "
     "job of an inherited split is treated as depending on every job of the upstream node); the termination of the run is C18's subject.",
     "rule": "case = (workflow graph of 2-6 nodes with splits, fail set, max_concurrent, recorded schedule); distinct by canonical "
-    "JSON; non-trivial = >= 3 jobs, >= 1 failing job that is executed, schedule policy other than FIFO",
+    "JSON; non-trivial = >= 3 jobs and a schedule policy other than FIFO completion (every case has >= 1 failing job)",
     "assumptions": ["a poll (get_runnable_tasks) is atomic with respect to changes on disk", "the worker never loses a job (no 'vanish' move)"],
     "trusted": ["model of NodeExecution.update_status / get_runnable_tasks and of the error collection written by hand (Sched/Model.lean)"],
 }
 
 _NS = "PydraModel.Sched."
-OBLIGATIONS = [_NS + n for n in ("C14_dependents_never_run", "C14_full", "C14_regression_D10")]
+OBLIGATIONS = [
+    _NS + n
+    for n in ("C14_dependents_never_run", "C14_full", "C14_regression_D10", "C14_stale_tables_witness", "C14_fresh_tables_regression")
+]
 LEAN_TARGETS = ["PydraModel.Props.C14"]
 MODEL_TARGETS = ["PydraModel.Sched.Model", "PydraModel.DriverUtil"]
 
@@ -91,22 +98,37 @@ def exhaustive_fail_sets(rng, n_graphs):
     return cases[: n_graphs * 12]
 
 
-# witnesses of repaired findings and hand-made schedules: corpus/sched/C14.jsonl
-CORPUS = sched.load_corpus("C14")
+# corpus/sched/C14.jsonl: first line = witness of the known finding D34 (a job fails *during* a poll), then the witness of
+# the repaired finding D10 and hand-made schedules
+_C = sched.load_corpus("C14")
+D34_WITNESS, CORPUS = _C[0], _C[1:]
+
+
+def d34(case, obs):
+    """match rule of D34: the ground truth of a predecessor's job changed to `failed` between two status reads of one poll"""
+    if case.get("race") and (obs.get("race") or {}).get("forced"):
+        return "D34"
+    return None
 
 
 def correspondence(ctx):
     core.assert_repo_loaded()
-    sched.explore(ctx, [dict(c) for c in CORPUS], spec, "C14 corpus (D10 witness)")
-    sched.explore(ctx, gen_cases(ctx.rng, ctx.pick(14, 160), ["failslast", "failslast", "random", "greedy", "lazy"]), spec,
-                  "C14 failure isolation")
+    # known-finding witness, corpus (D10 witness), then generated cases, in one batch
+    res = sched.explore(ctx, [dict(D34_WITNESS)] + [dict(c) for c in CORPUS]
+                        + gen_cases(ctx.rng, ctx.pick(14, 100), ["failslast", "failslast", "random", "greedy", "lazy"]),
+                        spec, "C14 failure isolation", defect=d34)
+    (_, o, _, _, _) = res[0]
+    if any(f["id"] == "D34" for f in ctx.known()):
+        still = o.get("outcome") not in ("ok", "RuntimeError") or "z" not in (o.get("executed") or [])
+        ctx.finding("D34", bool((o.get("race") or {}).get("forced")) and still,
+                    f"race forced: {(o.get('race') or {}).get('forced')}; outcome {o.get('outcome')}; executed {o.get('executed')}")
     if not ctx.quick:
-        sched.explore(ctx, exhaustive_fail_sets(ctx.rng, 8), spec, "C14 all fail sets")
+        sched.explore(ctx, exhaustive_fail_sets(ctx.rng, 8), spec, "C14 all fail sets", defect=d34)
 
 
 def search(ctx):
-    sched.explore(ctx, gen_cases(ctx.rng, ctx.pick(40, 300), ["failslast", "random", "greedy", "lazy", "fifo"]), spec, "C14 search")
+    sched.explore(ctx, gen_cases(ctx.rng, ctx.pick(40, 300), ["failslast", "random", "greedy", "lazy", "fifo"]), spec, "C14 search", defect=d34)
 
 
 def replay(ctx, rec):
-    sched.explore(ctx, [rec["case"]], spec, "C14 replay")
+    sched.explore(ctx, [rec["case"]], spec, "C14 replay", defect=d34)
